@@ -64,38 +64,39 @@ def clampI64 (v : Int) : Int :=
   if v > 9223372036854775807 then 9223372036854775807
   else if v < -9223372036854775808 then -9223372036854775808 else v
 
+/-- The "look for a leading indication of base" step of an integer conversion, behind the
+    optional sign: (a leading "0" was read, base, remaining input, remaining width).
+    A "0" is always read; an "x" behind it is read only for base 0 or 16. -/
+def intPrefix (base0 : Nat) (s1 : Bytes) (w1 : Option Nat) : Bool × Nat × Bytes × Option Nat :=
+  if wOk w1 && hd s1 = 48 && !s1.isEmpty then
+    if wOk (wDec w1) && tolower (hd (s1.drop 1)) = 120 && !(s1.drop 1).isEmpty then
+      if base0 = 0 ∨ base0 = 16 then (true, 16, s1.drop 2, wDec (wDec w1))
+      else (true, base0, s1.drop 1, wDec w1)
+    else (true, if base0 = 0 then 8 else base0, s1.drop 1, wDec w1)
+  else (false, if base0 = 0 then 10 else base0, s1, w1)
+
+/-- strtol / strtoul of the collected digits -/
+def intValue (conv : IntConv) (neg : Bool) (m : Nat) : Int :=
+  match conv with
+  | .x => if m > 18446744073709551615 then 18446744073709551615
+          else if neg then ((18446744073709551616 - m) % 18446744073709551616 : Nat) else m
+  | _ => clampI64 (if neg then -(m : Int) else m)
+
 /-- One integer conversion on `s` (leading white space included): value and the rest of the input;
     `none`: input failure / matching failure. -/
 def scanInt (conv : IntConv) (width : Option Nat) (s : Bytes) : Option (Int × Bytes) :=
-  let s0 := skipSpace s
-  match s0 with
+  match skipSpace s with
   | [] => none
   | c :: r0 =>
     let hasSign := c = 45 || c = 43
-    let neg := c = 45
-    let s1 := if hasSign then r0 else s0
+    let s1 := if hasSign then r0 else c :: r0
     let w1 := if hasSign then wDec width else width
     let base0 : Nat := match conv with | .d => 10 | .i => 0 | .x => 16
-    -- leading "0" / "0x"
-    let zero := wOk w1 && hd s1 = 48 && !s1.isEmpty
-    let s2 := if zero then s1.drop 1 else s1
-    let w2 := if zero then wDec w1 else w1
-    let sawX := zero && wOk w2 && tolower (hd s2) = 120 && !s2.isEmpty
-    let base1 : Nat := if zero then (if sawX then (if base0 = 0 then 16 else base0) else (if base0 = 0 then 8 else base0)) else base0
-    let eatX := sawX && base1 = 16
-    let s3 := if eatX then s2.drop 1 else s2
-    let w3 := if eatX then wDec w2 else w2
-    let base := if base1 = 0 then 10 else base1
-    let ds := (takeDigits base s3 w3).1
-    let rest := (takeDigits base s3 w3).2
-    if !zero && ds.isEmpty then none
-    else
-      let m := digitsVal base ds
-      let v : Int := match conv with
-        | .x => if m > 18446744073709551615 then 18446744073709551615
-                else if neg then ((18446744073709551616 - m) % 18446744073709551616 : Nat) else m
-        | _ => clampI64 (if neg then -(m : Int) else m)
-      some (v, rest)
+    let p := intPrefix base0 s1 w1
+    let ds := (takeDigits p.2.1 p.2.2.1 p.2.2.2).1
+    let rest := (takeDigits p.2.1 p.2.2.1 p.2.2.2).2
+    if !p.1 && ds.isEmpty then none
+    else some (intValue conv (c = 45) (digitsVal p.2.1 ds), rest)
 
 /-- state of the float collection loop -/
 structure FState where
